@@ -1001,7 +1001,7 @@ func (w *world) inject(victim *wnode, shape string, ev kit.Ev) error {
 func runAll(scs []kit.Scenario, out *kit.Out) error {
 	logger := logging.New(ioutil.Discard, 0)
 	seed := kit.Seed()
-	workers := 12
+	workers := 16
 	if s := os.Getenv("VERIF_WORKERS"); s != "" {
 		fmt.Sscanf(s, "%d", &workers)
 	}
